@@ -270,7 +270,7 @@ def arg_class(sec, args):
         parts.append("fmt-%s" % (chr(fmt) if chr(fmt) in "eEfgGbxX" else "invalid"))
         parts.append("shortest" if prec < 0 else "prec")
         parts.append("bits%d" % bs)
-    if key == "strconv.ParseFloat":
+    if key in ("strconv.ParseFloat", "strconv.ParseFloat.hex"):
         parts.append("bits32" if args[1] == 32 else "bits64")
     if key.startswith("math/bits.Div") or key.startswith("math/bits.Rem"):
         bits = int(re.search(r"(\d+)$", key).group(1))
